@@ -277,6 +277,8 @@ def gen_opts(rng, allow=("repeat", "stop", "buffer", "j", "verbose", "shuffle"))
         # (the three diff styles exclude each other: the runner refuses two of them)
         diffs = [g for g in o["decor"] if g[0] in ("--udiff", "--ndiff", "--cdiff")]
         o["decor"] = [g for g in o["decor"] if g not in diffs[1:]]
+        if rng.random() < 0.3:
+            o["color"] = True       # (--color: the escape sequences are taken out of the output before it is read)
     return o
 
 
@@ -539,9 +541,9 @@ def real_events(world, events):
         elif k == "ltd":
             out.append(["ltd", e["l"], e["r"]])
         elif k == "tsu":
-            out.append(["tsu", e["l"], not any(e["cap"])])
+            out.append(["tsu", e["l"], not any(e["cap"]) and e.get("own", True)])
         elif k == "ttd":
-            out.append(["ttd", e["l"], not any(e["cap"])])
+            out.append(["ttd", e["l"], not any(e["cap"]) and e.get("own", True)])
         elif k == "ph":
             out.append(["ph", e["t"], e["ph"]])
         elif k in ("tstart", "tend"):
